@@ -34,6 +34,11 @@ type Scenario struct {
 	Budget time.Duration // wall budget for this scenario (all bounds)
 }
 
+// spinLimit is the CPU time one scheduler step (goroutine-local computation between two
+// synchronisation operations; normally micro- to milliseconds) may burn before the worker
+// reports a livelock.
+const spinLimit = 8 * time.Second
+
 type scenResult struct {
 	Name        string       `json:"name"`
 	Bound       int          `json:"bound"` // largest completed bound (-1 = none)
@@ -219,6 +224,8 @@ func Main(t *testing.T, id string, gen0 func(thorough bool) []Scenario) {
 		batch = 24
 	}
 	retried := map[int]bool{}
+	spinSeen := map[string]rt.SpinInfo{}
+	spinConfirmed := map[string]bool{}
 	var internal []string
 	take := func() []int {
 		mu.Lock()
@@ -262,6 +269,27 @@ func Main(t *testing.T, id string, gen0 func(thorough bool) []Scenario) {
 					ln := sc.Text()
 					if strings.HasPrefix(ln, "E1START ") {
 						started, _ = strconv.Atoi(ln[8:])
+						continue
+					}
+					if strings.HasPrefix(ln, "E1LIVELOCK ") && started >= 0 {
+						var info rt.SpinInfo
+						if json.Unmarshal([]byte(ln[11:]), &info) == nil {
+							mu.Lock()
+							name := scs[started].Name
+							if prev, ok := spinSeen[name]; (ok && prev.Func == info.Func) || spinConfirmed[info.Func] {
+								// reproduced by a fresh worker (in this scenario, or the same spinner was already
+								// reproduced in another scenario of this run): a deterministic livelock of the implementation
+								spinConfirmed[info.Func] = true
+								results[name] = scenResult{Name: name, Bound: -1, Wall: info.CPU, Findings: []rt.Finding{{
+									Key:     "verdict:livelock|" + info.Func,
+									What:    fmt.Sprintf("a goroutine computes forever without reaching a synchronisation operation (%.0f CPU-s inside one scheduler step, reproduced by a fresh worker): spinning in %s; last released: %s", info.CPU, info.Func, info.Who),
+									Choices: info.Choices, Trace: info.Stack}}}
+								doneIdx[started] = true
+							} else {
+								spinSeen[name] = info
+							}
+							mu.Unlock()
+						}
 						continue
 					}
 					if !strings.HasPrefix(ln, "E1RESULT ") {
@@ -342,6 +370,11 @@ func Main(t *testing.T, id string, gen0 func(thorough bool) []Scenario) {
 		}
 	}
 	_ = allCovered
+	for n, info := range spinSeen {
+		if r, ok := results[n]; !ok || len(r.Findings) == 0 || !strings.HasPrefix(r.Findings[0].Key, "verdict:livelock|") {
+			c.Note(fmt.Sprintf("scenario %s: a worker reported %.0f CPU-s inside one scheduler step (in %s) once; the retry did not reproduce it, no verdict", n, info.CPU, info.Func))
+		}
+	}
 	if len(results) != len(scs) {
 		c.NotExhaustive(fmt.Sprintf("%d of %d scenarios produced a result", len(results), len(scs)))
 	}
@@ -366,6 +399,9 @@ func Main(t *testing.T, id string, gen0 func(thorough bool) []Scenario) {
 
 func worker(t *testing.T, shard string, gen func(bool) []Scenario) {
 	scs := gen(os.Getenv("VERIF_TIER") == "thorough")
+	// a goroutine that computes forever without reaching a synchronisation operation would hang
+	// the explorer: the watchdog reports it (E1LIVELOCK) and ends this worker
+	rt.StartSpinWatchdog(spinLimit)
 	for _, f := range strings.Split(shard, ",") {
 		idx, err := strconv.Atoi(f)
 		if err != nil || idx < 0 || idx >= len(scs) {
@@ -388,6 +424,7 @@ func worker(t *testing.T, shard string, gen func(bool) []Scenario) {
 }
 
 func replay(t *testing.T, c *vlib.Check, scs []Scenario) {
+	rt.StartSpinWatchdog(spinLimit) // a livelock finding replays as an E1LIVELOCK line and exit status 3
 	b, err := os.ReadFile(c.Replay)
 	if err != nil {
 		c.Internal("replay: %v", err)
